@@ -438,6 +438,9 @@ class PDBParser(LineParser):
                 mol2 = mol
                 self.molecules.append(mol)
                 id2idxs.append({mol.nodes[idx]['atomid']: idx for idx in mol})
+                # The union renumbered the nodes.
+                atomidx0 = id2idxs[-1][atomid0]
+                atomidx = id2idxs[-1][atomid]
 
             dist = distance(mol.nodes[atomidx0]['position'],
                             mol2.nodes[atomidx]['position'])
